@@ -13,6 +13,11 @@ package c12
 //	       and last instant of the root's validity, common names of length 0 / 1 / 64 / 200 and with DN meta characters,
 //	       re-bootstraps that replace stored objects by much shorter / longer ones
 //	chain  one epoch with more than ten rotations (key version suffix and manifest grow past one digit / ten entries)
+//	subsec command timestamps that carry a fraction of a second (X.509 times have one-second resolution), through the
+//	       library and the command line (--timestamp in RFC 3339 with nanoseconds)
+//	faults a fault-free prefix, then ONE command run once per component-call position with a single error injected at
+//	       that position (the state is restored in between). C12 quantifies over fault-free histories, so a command that
+//	       FAILS under its fault is not judged at all; one that REPORTS SUCCESS although a call failed is judged by every rule
 //
 // Every command of these histories goes through hist.step, i.e. is judged by the rules of the original histories.
 
@@ -231,6 +236,7 @@ func (b *baton) finish(me int) {
 // tally feeds the floors of the added families (one per shard run; histories of a pair update it concurrently).
 type tally struct {
 	keptProbes, sweeps, zeroSerial, shorter, maxChain, handoffs, meetings atomic.Int64
+	subsecHalf, faultFailed, faultSwallowed, faultDestroy, faultCases     atomic.Int64
 }
 
 type extra struct {
@@ -250,6 +256,24 @@ type extra struct {
 	bseq         int    // next boundary serial to plant
 	atTimeBound  string
 	rotations    int // successful rotations in the current epoch
+
+	subsec  bool          // command timestamps carry a fraction of a second
+	frac    time.Duration // ... the fraction of the running command
+	faults  bool          // commands run through the fault-injecting doubles
+	fctl    *doubles.FCtl // ... the controller of the running command (no fault planned: a fault-free command)
+	forced  bool          // the next command's kind is fixed to forceOp
+	forceOp int
+}
+
+// fractions of a second the subsec family puts on its timestamps: next to 0, 1/2 and 1, and ordinary ones
+var fractions = []time.Duration{1, 250 * time.Millisecond, 499999999, 500 * time.Millisecond, 500000001, 750 * time.Millisecond, 999 * time.Millisecond, 999999999}
+
+// stamp renders a command time for the command line.
+func (h *hist) stamp(t time.Time) string {
+	if h.x != nil && h.x.subsec {
+		return t.Format(time.RFC3339Nano)
+	}
+	return t.Format(time.RFC3339)
 }
 
 var (
@@ -327,6 +351,17 @@ const (
 )
 
 func (h *hist) xTime(step int) {
+	h.xTimeWhole(step)
+	if x := h.x; x.subsec {
+		x.frac = fractions[h.r.IntN(len(fractions))]
+		if h.r.IntN(3) == 0 {
+			x.frac = time.Duration(1 + h.r.IntN(999999999))
+		}
+		h.now = h.now.Truncate(time.Second).Add(x.frac)
+	}
+}
+
+func (h *hist) xTimeWhole(step int) {
 	x := h.x
 	x.atTimeBound = ""
 	if x.chain || x.sweep {
@@ -355,6 +390,8 @@ func (h *hist) xGen(step int, pre *authority.State) *command {
 	k := r.IntN(20)
 	op := opWipeout
 	switch {
+	case x.forced:
+		op, x.forced = x.forceOp, false
 	case (x.chain || x.drill || x.sweep) && step == 0:
 		op = opBootstrap
 	case x.sweep:
@@ -448,7 +485,7 @@ func (h *hist) xGen(step int, pre *authority.State) *command {
 		cm.bc = bc
 		cm.note = fmt.Sprintf(" [root cn=%q serial=%v, signing cn=%q serial=%v]", short(bc.RootKeyCommonName), bc.RootKeySerial, short(bc.SigningKeyCommonName), bc.SigningKeySerial)
 		if cli {
-			args := []string{"bootstrap", "--timestamp", now.Format(time.RFC3339)}
+			args := []string{"bootstrap", "--timestamp", h.stamp(now)}
 			args = append(args, h.flag("root_key_cn", bc.RootKeyCommonName, bc.RootKeyCommonName == defRootCN, false)...)
 			args = append(args, h.flag("signing_key_cn", bc.SigningKeyCommonName, bc.SigningKeyCommonName == defSignCN, false)...)
 			args = append(args, h.flag("root_key_serial", bc.RootKeySerial.String(), bc.RootKeySerial.Cmp(one) == 0, true)...)
@@ -498,7 +535,7 @@ func (h *hist) xGen(step int, pre *authority.State) *command {
 		cm.skc = skc
 		cm.note = fmt.Sprintf(" [cn=%q serial=%v]", short(skc.SigningKeyCommonName), skc.SigningKeySerial)
 		if cli {
-			args := []string{"rotate", "--timestamp", now.Format(time.RFC3339)}
+			args := []string{"rotate", "--timestamp", h.stamp(now)}
 			args = append(args, h.flag("signing_key_cn", skc.SigningKeyCommonName, skc.SigningKeyCommonName == defSignCN, false)...)
 			switch {
 			case zeroForm != "":
@@ -699,6 +736,34 @@ func (x *extra) evidence(h *hist, cm *command, before map[string][]byte, err err
 	if x.forms && cm.args != nil {
 		c.Cell("flags|%s|overwrite=%v keep_going=%v|%s", strings.SplitN(cm.kind, "(", 2)[0], cm.overwrite, cm.keepGoing, ok)
 	}
+	if x.subsec && cm.op != opWipeout {
+		class := "below one half"
+		switch {
+		case x.frac == 500*time.Millisecond:
+			class = "exactly one half"
+		case x.frac > 500*time.Millisecond:
+			class = "above one half"
+		}
+		mode := map[bool]string{true: "command line", false: "library"}[cm.args != nil]
+		c.Cell("subsec|%s|fraction %s|%s|%s|%s", strings.SplitN(cm.kind, "(", 2)[0], class, h.a.KM, mode, ok)
+		if err == nil {
+			c.Count("subsec: certifying commands at a time with a fraction of a second that succeeded (certificates judged)", 1)
+			// a rotation inside an epoch: its certificate was made from its predecessor's
+			if cm.op == opRotate && h.ep.active && x.frac >= 500*time.Millisecond {
+				c.Count("subsec: rotations inside an epoch at a fraction of one half or more judged", 1)
+				x.t.subsecHalf.Add(1)
+			}
+		}
+	}
+	if x.faults && x.fctl != nil {
+		if pos, name := injectedAt(x.fctl); pos > 0 && err == nil {
+			// reached only when the command reported success: step has judged it by every rule
+			c.Count("faults: commands that REPORTED SUCCESS although a call failed (judged by every rule)", 1)
+			c.Cell("faults|%s|overwrite=%v keep_going=%v|error at %s|reported success: judged|%s", strings.SplitN(cm.kind, "(", 2)[0], cm.overwrite, cm.keepGoing, name, h.a.Name())
+			x.t.faultSwallowed.Add(1)
+			h.cmds[len(h.cmds)-1] += fmt.Sprintf(" [call %d %s failed]", pos, name)
+		}
+	}
 	if cm.overwrite && cm.op == opBootstrap && err == nil {
 		after := certObjects(h.a)
 		for n, b := range before {
@@ -858,6 +923,24 @@ func runExtra(c *core.Ctx, base int) int {
 		h.x.chain = true
 		return h, dir
 	})
+	// subsec: timestamps with a fraction of a second; every assembly, the command line where it applies
+	single(c.N(6, 24), c.N(7, 9), func(k int, r *rand.Rand) (*hist, string) {
+		p := pairs[k%len(pairs)]
+		cli := p == cliPair && (k/len(pairs))%2 == 0
+		h, dir := newX(c, t, idx, r, "subsec", p, cli, !cli && k%3 == 1, nil)
+		h.x.subsec, h.viaCLI = true, cli
+		return h, dir
+	})
+	// faults: one command, a single error at every call position in turn
+	for k, n := 0, c.N(14, 48); k < n; k, idx = k+1, idx+1 {
+		if !c.Mine(idx) {
+			continue
+		}
+		total += runFaultCase(c, t, idx, k, c.Rand(idx), pairs[k%len(pairs)])
+	}
+	c.Count("faults: cases (one command faulted at every call position in turn)", int(t.faultCases.Load()))
+	c.Floor("subsec: a rotation inside an epoch at a time with a fraction of one half of a second or more was judged", t.subsecHalf.Load() > 0)
+	c.Floor("faults: a rotation was run with the destruction of the previous key failing, and commands failing under their fault were left unjudged", t.faultDestroy.Load() > 0 && t.faultFailed.Load() > 0)
 	c.Floor("kept: the signer a process kept across its commands was probed", t.keptProbes.Load() > 0)
 	c.Floor("pair: two histories were handed over at component calls and built certificates in turn", t.handoffs.Load() > 0 && t.meetings.Load() > 0)
 	c.Floor("flags: a rotation with --rotated_key_serial_override=0 spelled out was judged as default", t.zeroSerial.Load() > 0)
@@ -865,4 +948,121 @@ func runExtra(c *core.Ctx, base int) int {
 	c.Floor("bounds: a stored object was replaced by shorter content", t.shorter.Load() > 0)
 	c.Floor("chain: an epoch with ten or more rotations", t.maxChain.Load() >= 10)
 	return total
+}
+
+// ---- faults: one command, a single error at every component-call position in turn ----
+
+// injectedAt returns the position and the name (without its argument) of the call that was answered with the injected error.
+func injectedAt(f *doubles.FCtl) (int, string) {
+	for _, call := range f.Log {
+		if call.Result == "injected-error" {
+			return call.Seq, strings.SplitN(call.Name, ":", 2)[0]
+		}
+	}
+	return 0, ""
+}
+
+// faultExec runs the command through the library entry points with every component behind the fault-injecting doubles.
+func (h *hist) faultExec(cm *command) (err error) {
+	a, f := h.a, h.x.fctl
+	opts := authority.Opts{Overwrite: cm.overwrite, KeepGoing: cm.keepGoing}
+	switch cm.op {
+	case opBootstrap:
+		bc := *cm.bc
+		return a.Bootstrap(f, opts, &bc)
+	case opRotate:
+		_, err = a.Rotate(f, opts, cm.skc)
+		return err
+	}
+	return a.Wipeout(f, opts, cm.wca, cm.wkeys)
+}
+
+// faultNotJudged: a command that failed and had a call answered with the injected error claimed nothing. C12 states its
+// invariants over fault-free histories; what a failing command leaves behind under a fault is C10's and C11's subject.
+func (x *extra) faultNotJudged(h *hist, cm *command, err error) bool {
+	pos, name := injectedAt(x.fctl)
+	if name == "manager.DestroyKeyVersion" && cm.op == opRotate {
+		x.t.faultDestroy.Add(1)
+		h.c.Count("faults: rotations run with the destruction of the previous key failing", 1)
+	}
+	if err == nil || pos == 0 {
+		return false
+	}
+	x.t.faultFailed.Add(1)
+	h.ncmd++
+	h.c.Count("faults: commands that failed under their injected fault (nothing judged)", 1)
+	h.c.Count("added: commands of family "+x.fam, 1)
+	h.c.Cell("faults|%s|overwrite=%v keep_going=%v|error at %s|command failed: not judged|%s", strings.SplitN(cm.kind, "(", 2)[0], cm.overwrite, cm.keepGoing, name, h.a.Name())
+	h.cmds = append(h.cmds, fmt.Sprintf("%s overwrite=%v keep_going=%v [call %d %s failed] -> %v (not judged)", cm.kind, cm.overwrite, cm.keepGoing, pos, name, err))
+	return true
+}
+
+// save returns a function that puts the history's bookkeeping back to what it is now.
+func (h *hist) save() func() {
+	ep := h.ep
+	names := map[string]bool{}
+	for n := range h.ep.names {
+		names[n] = true
+	}
+	used := map[string][]*big.Int{}
+	for cn, l := range h.usedSerials {
+		used[cn] = append([]*big.Int(nil), l...)
+	}
+	now, na, nb, ncmds, x := h.now, h.rootNotAfter, h.rootNotBefore, len(h.cmds), *h.x
+	return func() {
+		h.ep = ep
+		h.ep.names = map[string]bool{}
+		for n := range names {
+			h.ep.names[n] = true
+		}
+		h.usedSerials = map[string][]*big.Int{}
+		for cn, l := range used {
+			h.usedSerials[cn] = append([]*big.Int(nil), l...)
+		}
+		h.now, h.rootNotAfter, h.rootNotBefore, h.cmds = now, na, nb, h.cmds[:ncmds:ncmds]
+		*h.x = x
+	}
+}
+
+var faultOps = []int{opRotate, opWipeout, opBootstrap}
+
+func runFaultCase(c *core.Ctx, t *tally, idx, k int, r *rand.Rand, pair [2]string) int {
+	h, dir := newX(c, t, idx, r, "faults", pair, false, false, nil)
+	x := h.x
+	x.faults, x.chain, x.fctl = true, true, &doubles.FCtl{}
+	h.exec = h.faultExec
+	c.Begin(idx, h.gname, "bootstrap/rotate/wipeout", nil)
+	// fault-free prefix (judged like every history): bootstrap and up to two rotations
+	step, np := 0, 1+r.IntN(3)
+	for ; step < np; step++ {
+		x.fctl = &doubles.FCtl{}
+		h.step(step)
+	}
+	// the command under test, generated once
+	x.chain = false
+	h.xTime(step)
+	x.forced, x.forceOp = true, faultOps[(k/len(authority.Pairs()))%len(faultOps)]
+	cm := h.xGen(step, h.a.Observe())
+	h.pickTime = func(int) {}
+	h.gen = func(int, *authority.State) *command { cp := *cm; return &cp }
+	snap, restore := h.a.Snapshot(), h.save()
+	var trace []string
+	for pos := 1; pos < 200; pos++ {
+		h.a.Restore(snap)
+		restore()
+		x.fctl = &doubles.FCtl{Faults: map[int]string{pos: doubles.FaultError}}
+		h.step(step)
+		if len(h.cmds) > 0 {
+			trace = append(trace, h.cmds[len(h.cmds)-1])
+		}
+		if x.fctl.N() < pos {
+			break // the position lies beyond the command's last call: this was the fault-free run, judged as such
+		}
+		c.Count("faults: call positions faulted", 1)
+	}
+	t.faultCases.Add(1)
+	h.cmds = append(h.cmds[:min(len(h.cmds), np)], trace...)
+	n := h.finish(dir)
+	c.End(idx)
+	return n
 }
